@@ -1,6 +1,829 @@
 package main
 
-// tryReplay attempts to confirm a failed obligation on the real code (filled in by replay_gen.go).
-func (v *Verifier) tryReplay(prop string, o *Oblig, rep map[string]interface{}, tier string, seed int) bool {
+import (
+	"encoding/json"
+	"fmt"
+	"go/types"
+	"math/big"
+	"math/rand"
+	"os"
+	"os/exec"
+	"path/filepath"
+	"sort"
+	"strings"
+	"time"
+)
+
+// ---------- replay of counterexamples and directed search on the real code ----------
+//
+// For a function under contract and one aliasing/nil/length case, a Go test is generated that is compiled INTO the
+// function's package through `go test -overlay` (nothing is written to /repo). It reads input vectors, builds the
+// arguments (honouring the aliasing case), calls the real function and prints every cell of every argument object
+// and the results. The engine then evaluates the contract clause on those observed values with the concrete
+// evaluator (concrete.go).
+
+type harnessParam struct {
+	name   string
+	kind   string // ptr nil scalar agg slice nilslice string
+	typ    types.Type
+	rep    string // alias-class representative (ptr)
+	leaves []leafInfo
+	n      int // slice length
+}
+
+type harness struct {
+	fr     *FuncRef
+	cs     caseSpec
+	params []harnessParam
+	objs   map[string]harnessParam // representative objects
+	src    string
+	ok     bool
+	why    string
+}
+
+func goQual(pkg *types.Package) types.Qualifier {
+	return func(p *types.Package) string {
+		if p == pkg {
+			return ""
+		}
+		return p.Name()
+	}
+}
+
+func goPathOf(leaf, prefix, goVar string) string {
+	return goVar + strings.TrimPrefix(leaf, prefix)
+}
+
+func (v *Verifier) buildHarness(fr *FuncRef, fc *FuncContract, cs caseSpec) *harness {
+	h := &harness{fr: fr, cs: cs, objs: map[string]harnessParam{}}
+	q := goQual(fr.Pkg.Types)
+	imports := map[string]bool{}
+	noteImports := func(t types.Type) {
+		var walk func(t types.Type)
+		seen := map[types.Type]bool{}
+		walk = func(t types.Type) {
+			if seen[t] {
+				return
+			}
+			seen[t] = true
+			switch u := t.(type) {
+			case *types.Named:
+				if u.Obj().Pkg() != nil && u.Obj().Pkg() != fr.Pkg.Types {
+					imports[u.Obj().Pkg().Path()] = true
+				}
+			case *types.Pointer:
+				walk(u.Elem())
+			case *types.Array:
+				walk(u.Elem())
+			case *types.Slice:
+				walk(u.Elem())
+			}
+		}
+		walk(t)
+	}
+	var decl, assign, dump, callArgs strings.Builder
+	for _, p := range funcParams(fr) {
+		if p.typ == nil {
+			h.why = "unnamed parameter"
+			return h
+		}
+		hp := harnessParam{name: p.name, typ: p.typ}
+		switch u := p.typ.Underlying().(type) {
+		case *types.Pointer:
+			if cs.nilSet[p.name] {
+				hp.kind = "nil"
+				callArgs.WriteString(fmt.Sprintf("(%s)(nil), ", types.TypeString(p.typ, q)))
+				break
+			}
+			hp.kind, hp.rep = "ptr", cs.classOf[p.name]
+			if _, ok := h.objs[hp.rep]; !ok {
+				leafTypes(u.Elem(), hp.rep, &hp.leaves)
+				for _, l := range hp.leaves {
+					if machType(l.Typ).Kind != "int" && machType(l.Typ).Kind != "bool" {
+						h.why = "pointer-holding parameter object"
+						return h
+					}
+				}
+				h.objs[hp.rep] = hp
+				noteImports(u.Elem())
+				fmt.Fprintf(&decl, "\tvar v_%s %s\n", hp.rep, types.TypeString(u.Elem(), q))
+				for _, l := range hp.leaves {
+					g := goPathOf(l.Path, hp.rep, "v_"+hp.rep)
+					fmt.Fprintf(&assign, "\t\t%s = %s(u64(vec[%q]))\n", g, types.TypeString(l.Typ, q), l.Path)
+					fmt.Fprintf(&dump, "\t\tout[%q] = fmt.Sprint(uint64(%s))\n", l.Path, g)
+				}
+			}
+			callArgs.WriteString(fmt.Sprintf("(%s)(&v_%s), ", types.TypeString(p.typ, q), hp.rep))
+		case *types.Slice:
+			n, ok := cs.lens[p.name]
+			if !ok {
+				// abstract slice: content and length come from the vector
+				hp.kind = "absslice"
+				fmt.Fprintf(&decl, "\tvar v_%s []byte\n", p.name)
+				fmt.Fprintf(&assign, "\t\tv_%s = mkslice(vec[%q], vec[%q])\n\t\tbak_%s := append([]byte{}, v_%s[:cap(v_%s)]...)\n", p.name, "bytes("+p.name+")", "sparecap("+p.name+")", p.name, p.name, p.name)
+				fmt.Fprintf(&dump, "\t\tout[%q] = fmt.Sprint(string(bak_%s) == string(v_%s[:cap(v_%s)]))\n", "unchanged("+p.name+")", p.name, p.name, p.name)
+				callArgs.WriteString("v_" + p.name + ", ")
+				break
+			}
+			if n == -2 {
+				hp.kind = "nilslice"
+				callArgs.WriteString("nil, ")
+				break
+			}
+			if n == -1 {
+				h.why = "'other length' class"
+				return h
+			}
+			hp.kind, hp.n = "slice", n
+			fmt.Fprintf(&decl, "\tvar v_%s []byte\n", p.name)
+			fmt.Fprintf(&assign, "\t\tv_%s = make([]byte, %d, %d+int(u64(vec[%q])%%8))\n", p.name, n, n, "sparecap("+p.name+")")
+			for i := 0; i < n; i++ {
+				fmt.Fprintf(&assign, "\t\tv_%s[%d] = byte(u64(vec[%q]))\n", p.name, i, fmt.Sprintf("%s[%d]", p.name, i))
+				fmt.Fprintf(&dump, "\t\tout[%q] = fmt.Sprint(uint64(v_%s[%d]))\n", fmt.Sprintf("%s[%d]", p.name, i), p.name, i)
+			}
+			fmt.Fprintf(&assign, "\t\tsp_%s := append([]byte{}, v_%s[:cap(v_%s)]...)\n", p.name, p.name, p.name)
+			fmt.Fprintf(&dump, "\t\tout[%q] = fmt.Sprint(string(sp_%s[%d:]) == string(v_%s[:cap(v_%s)][%d:]))\n", "spare-unchanged("+p.name+")", p.name, n, p.name, p.name, n)
+			callArgs.WriteString("v_" + p.name + ", ")
+		case *types.Array, *types.Struct:
+			hp.kind = "agg"
+			leafTypes(p.typ, p.name, &hp.leaves)
+			noteImports(p.typ)
+			fmt.Fprintf(&decl, "\tvar v_%s %s\n", p.name, types.TypeString(p.typ, q))
+			for _, l := range hp.leaves {
+				g := goPathOf(l.Path, p.name, "v_"+p.name)
+				fmt.Fprintf(&assign, "\t\t%s = %s(u64(vec[%q]))\n", g, types.TypeString(l.Typ, q), l.Path)
+			}
+			callArgs.WriteString("v_" + p.name + ", ")
+		default:
+			mt := machType(p.typ)
+			switch mt.Kind {
+			case "int":
+				hp.kind = "scalar"
+				if k, ok := cs.lens[p.name]; ok {
+					callArgs.WriteString(fmt.Sprintf("%s(%d), ", types.TypeString(p.typ, q), k))
+				} else {
+					callArgs.WriteString(fmt.Sprintf("%s(u64(vec[%q])), ", types.TypeString(p.typ, q), p.name))
+				}
+			case "bool":
+				hp.kind = "scalar"
+				callArgs.WriteString(fmt.Sprintf("u64(vec[%q]) != 0, ", p.name))
+			case "string":
+				hp.kind = "string"
+				callArgs.WriteString(fmt.Sprintf("vec[%q], ", "string("+p.name+")"))
+			default:
+				h.why = "parameter of unsupported type " + p.typ.String()
+				return h
+			}
+		}
+		h.params = append(h.params, hp)
+	}
+	// call expression
+	args := strings.TrimSuffix(callArgs.String(), ", ")
+	call := ""
+	if fr.Decl.Recv != nil {
+		i := strings.Index(args, ", ")
+		recv, rest := args, ""
+		if i >= 0 {
+			recv, rest = args[:i], args[i+2:]
+		}
+		call = fmt.Sprintf("(%s).%s(%s)", recv, fr.Decl.Name.Name, rest)
+	} else {
+		call = fmt.Sprintf("%s(%s)", fr.Decl.Name.Name, args)
+	}
+	rts := resultTypes(fr)
+	var lhs []string
+	var rdump strings.Builder
+	errNames := map[string]bool{}
+	sc := fr.Pkg.Types.Scope()
+	for _, n := range sc.Names() {
+		if vr, ok := sc.Lookup(n).(*types.Var); ok && machType(vr.Type()).Kind == "error" {
+			errNames[n] = true
+		}
+	}
+	for i, rt := range rts {
+		r := fmt.Sprintf("r%d", i)
+		lhs = append(lhs, r)
+		mt := machType(rt)
+		switch mt.Kind {
+		case "int":
+			fmt.Fprintf(&rdump, "\t\tout[%q] = fmt.Sprint(uint64(%s))\n", r, r)
+		case "bool":
+			fmt.Fprintf(&rdump, "\t\tif %s { out[%q] = \"1\" } else { out[%q] = \"0\" }\n", r, r, r)
+		case "error":
+			fmt.Fprintf(&rdump, "\t\tout[%q] = \"err:other\"\n\t\tif %s == nil { out[%q] = \"err:nil\" }\n", r, r, r)
+			var ens []string
+			for n := range errNames {
+				ens = append(ens, n)
+			}
+			sort.Strings(ens)
+			for _, n := range ens {
+				fmt.Fprintf(&rdump, "\t\tif %s == %s { out[%q] = \"err:%s.%s\" }\n", r, n, r, fr.Pkg.Name, n)
+			}
+		case "ptr":
+			pt := rt.Underlying().(*types.Pointer).Elem()
+			fmt.Fprintf(&rdump, "\t\tout[%q] = \"ptr:fresh\"\n\t\tif %s == nil { out[%q] = \"ptr:nil\" }\n", r, r, r)
+			var reps []string
+			for rep, o := range h.objs {
+				if types.Identical(types.NewPointer(o.typ.Underlying().(*types.Pointer).Elem()), rt) {
+					reps = append(reps, rep)
+				}
+			}
+			sort.Strings(reps)
+			for _, rep := range reps {
+				fmt.Fprintf(&rdump, "\t\tif %s == &v_%s { out[%q] = \"ptr:%s\" }\n", r, rep, r, rep)
+			}
+			var leaves []leafInfo
+			leafTypes(pt, r, &leaves)
+			okLeaves := true
+			for _, l := range leaves {
+				if machType(l.Typ).Kind != "int" && machType(l.Typ).Kind != "bool" {
+					okLeaves = false
+				}
+			}
+			if okLeaves {
+				fmt.Fprintf(&rdump, "\t\tif %s != nil {\n", r)
+				for _, l := range leaves {
+					fmt.Fprintf(&rdump, "\t\t\tout[%q] = fmt.Sprint(uint64(%s))\n", l.Path, "(*"+r+")"+strings.TrimPrefix(l.Path, r))
+				}
+				fmt.Fprintf(&rdump, "\t\t}\n")
+			}
+		case "slice":
+			fmt.Fprintf(&rdump, "\t\tout[%q] = fmt.Sprintf(\"%%x\", []byte(%s))\n", r+".bytes", r)
+		case "string":
+			fmt.Fprintf(&rdump, "\t\tout[%q] = %s\n", r+".string", r)
+		default:
+			if at, ok := rt.Underlying().(*types.Array); ok && leafCount(at.Elem()) == 1 {
+				fmt.Fprintf(&rdump, "\t\tfor i := range %s { out[fmt.Sprintf(\"%s[%%d]\", i)] = fmt.Sprint(uint64(%s[i])) }\n", r, r, r)
+			} else {
+				h.why = "result of unsupported type " + rt.String()
+				return h
+			}
+		}
+	}
+	assignCall := call
+	if len(lhs) > 0 {
+		assignCall = strings.Join(lhs, ", ") + " := " + call
+	}
+	var imp strings.Builder
+	var ips []string
+	for p := range imports {
+		ips = append(ips, p)
+	}
+	sort.Strings(ips)
+	for _, p := range ips {
+		fmt.Fprintf(&imp, "\t%q\n", p)
+	}
+	h.src = fmt.Sprintf(`package %s
+
+import (
+	"encoding/hex"
+	"encoding/json"
+	"fmt"
+	"math/big"
+	"os"
+	"testing"
+%s)
+
+var _ = hex.EncodeToString
+var _ = big.NewInt
+
+func u64(s string) uint64 {
+	v, _ := new(big.Int).SetString(s, 10)
+	if v == nil {
+		return 0
+	}
+	return v.Uint64()
+}
+
+func mkslice(hx, spare string) []byte {
+	b, _ := hex.DecodeString(hx)
+	s := make([]byte, len(b), len(b)+int(u64(spare)%%8))
+	copy(s, b)
+	return s
+}
+
+func TestVerifReplayHarness(t *testing.T) {
+	raw, err := os.ReadFile(os.Getenv("VERIF_VECTORS"))
+	if err != nil {
+		t.Fatal(err)
+	}
+	var vecs []map[string]string
+	if err := json.Unmarshal(raw, &vecs); err != nil {
+		t.Fatal(err)
+	}
+	var outs []map[string]string
+	for _, vec := range vecs {
+		outs = append(outs, runOne(vec))
+	}
+	b, _ := json.Marshal(outs)
+	os.WriteFile(os.Getenv("VERIF_OUT"), b, 0o644)
+}
+
+func runOne(vec map[string]string) (out map[string]string) {
+	out = map[string]string{}
+	defer func() {
+		if r := recover(); r != nil {
+			out["panic"] = fmt.Sprint(r)
+		}
+	}()
+%s	{
+%s		%s
+%s%s	}
+	return out
+}
+`, fr.Pkg.Name, imp.String(), decl.String(), assign.String(), assignCall, dump.String(), rdump.String())
+	h.ok = true
+	return h
+}
+
+// runHarness compiles the harness into the package (overlay) and runs it on the vectors.
+func (v *Verifier) runHarness(h *harness, vecs []map[string]string) ([]map[string]string, string, error) {
+	dir := filepath.Join(verifRoot, "build", "replay", sanitize(h.fr.QName()))
+	os.MkdirAll(dir, 0o755)
+	src := filepath.Join(dir, "zz_verif_replay_test.go")
+	os.WriteFile(src, []byte(h.src), 0o644)
+	vf := filepath.Join(dir, "vectors.json")
+	of := filepath.Join(dir, "out.json")
+	os.Remove(of)
+	vb, _ := json.Marshal(vecs)
+	os.WriteFile(vf, vb, 0o644)
+	target := filepath.Join(h.fr.Pkg.Dir, "zz_verif_replay_test.go")
+	ov := map[string]map[string]string{"Replace": {target: src}}
+	ob, _ := json.Marshal(ov)
+	ovf := filepath.Join(dir, "overlay.json")
+	os.WriteFile(ovf, ob, 0o644)
+	rel, _ := filepath.Rel(v.prog.Root, h.fr.Pkg.Dir)
+	cmd := exec.Command("go", "test", "-overlay", ovf, "-vet=off", "-count=1", "-timeout", "120s", "-run", "^TestVerifReplayHarness$", "./"+rel)
+	cmd.Dir = v.prog.Root
+	cmd.Env = append(os.Environ(), "GOFLAGS=-mod=mod", "GOPROXY=off", "GOSUMDB=off", "GOTOOLCHAIN=local", "VERIF_VECTORS="+vf, "VERIF_OUT="+of)
+	outb, err := cmd.CombinedOutput()
+	cmdline := fmt.Sprintf("cd %s && VERIF_VECTORS=%s VERIF_OUT=%s go test -overlay %s -vet=off -count=1 -timeout 120s -run '^TestVerifReplayHarness$' ./%s", v.prog.Root, vf, of, ovf, rel)
+	rb, rerr := os.ReadFile(of)
+	if rerr != nil {
+		return nil, cmdline, fmt.Errorf("harness did not produce output: %v\n%s", err, truncate(string(outb), 2000))
+	}
+	var outs []map[string]string
+	if err := json.Unmarshal(rb, &outs); err != nil {
+		return nil, cmdline, err
+	}
+	return outs, cmdline, nil
+}
+
+// evalOn evaluates the clauses of fc on one observed run. Returns per-clause verdicts: "true", "false" or a residual.
+func (v *Verifier) evalOn(fr *FuncRef, fc *FuncContract, cs caseSpec, vec, out map[string]string) (pre bool, verdicts map[string]string, err error) {
+	defer func() {
+		concreteOn = false
+		if r := recover(); r != nil {
+			if ee, ok := r.(engineError); ok {
+				err = fmt.Errorf("%s", ee.msg)
+				return
+			}
+			if _, ok := r.(pathEnd); ok {
+				err = fmt.Errorf("path ended during concrete evaluation")
+				return
+			}
+			panic(r)
+		}
+	}()
+	concreteOn = true
+	ex := v.newExec(fr, fc)
+	ex.pattern = cs.label
+	ex.resetPath()
+	args := ex.setupParams(cs)
+	names, _ := paramNames(fr.Decl)
+	val := func(m map[string]string, key string) (*big.Int, bool) {
+		s, ok := m[key]
+		if !ok {
+			return nil, false
+		}
+		b, ok := new(big.Int).SetString(s, 10)
+		return b, ok
+	}
+	setCells := func(m map[string]string, strict bool) {
+		for _, o := range ex.st.objs {
+			var leaves []leafInfo
+			leafTypes(o.Typ, o.Name, &leaves)
+			for i, l := range leaves {
+				if i >= len(o.Cells) {
+					break
+				}
+				if b, ok := val(m, l.Path); ok {
+					o.Cells[i] = ex.constOf(b, machType(l.Typ))
+				} else if strict {
+					if _, isT := o.Cells[i].(*Term); isT {
+						o.Cells[i] = ex.constOf(bi(0), machType(l.Typ))
+					}
+				}
+			}
+		}
+	}
+	setCells(vec, true)
+	ex.specVars = map[string]Value{}
+	for i, n := range names {
+		if n == "_" {
+			continue
+		}
+		switch a := args[i].(type) {
+		case *Term:
+			if a.IsConst() {
+				ex.specVars[n] = a
+			} else if b, ok := val(vec, n); ok {
+				ex.specVars[n] = ex.constOf(b, machType(funcParams(fr)[i].typ))
+			} else {
+				ex.specVars[n] = ex.constOf(bi(0), machType(funcParams(fr)[i].typ))
+			}
+		case AggV:
+			o := ex.st.newObj("byval:"+n, a.Typ)
+			var leaves []leafInfo
+			leafTypes(a.Typ, n, &leaves)
+			o.Cells = make([]Value, len(leaves))
+			for j, l := range leaves {
+				b, _ := val(vec, l.Path)
+				if b == nil {
+					b = bi(0)
+				}
+				o.Cells[j] = ex.constOf(b, machType(l.Typ))
+			}
+			ex.specVars[n] = PtrV{Obj: o, Typ: a.Typ}
+		case SliceV:
+			if a.Abs != nil {
+				bs, _ := hexDecode(vec["bytes("+n+")"])
+				a.Abs.Str = StrLit(bs)
+				a.Abs.Len = IntI(int64(len(bs)))
+			}
+			ex.specVars[n] = a
+		case OpaqueV:
+			ex.specVars[n] = a
+		default:
+			ex.specVars[n] = args[i]
+		}
+	}
+	ex.frames = []*Frame{{pkg: fr.Pkg, fn: fr, vars: map[types.Object]*Obj{}}}
+	ex.entry = ex.snapshot()
+	prectx := &SpecCtx{ex: ex, vars: ex.specVars, old: ex.entry, pkg: fr.Pkg}
+	pre = true
+	for _, rq := range fc.Requires {
+		t := prectx.term(rq.Expr)
+		if !t.IsTrue() {
+			pre = false
+		}
+	}
+	if !pre {
+		return
+	}
+	// post state
+	setCells(out, false)
+	vars := map[string]Value{}
+	for k, x := range ex.specVars {
+		vars[k] = x
+	}
+	rts := resultTypes(fr)
+	var results []Value
+	for i, rt := range rts {
+		r := fmt.Sprintf("r%d", i)
+		mt := machType(rt)
+		switch mt.Kind {
+		case "int", "bool":
+			b, _ := val(out, r)
+			if b == nil {
+				b = bi(0)
+			}
+			results = append(results, ex.constOf(b, mt))
+		case "error":
+			s := out[r]
+			switch {
+			case s == "err:nil":
+				results = append(results, IntI(0))
+			case s == "err:other":
+				results = append(results, IntI(999999))
+			default:
+				results = append(results, ex.errCode(strings.TrimPrefix(s, "err:")))
+			}
+		case "ptr":
+			pt := rt.Underlying().(*types.Pointer).Elem()
+			s := strings.TrimPrefix(out[r], "ptr:")
+			switch s {
+			case "nil":
+				results = append(results, PtrV{Typ: pt})
+			case "fresh":
+				o := ex.st.newObj(r, pt)
+				var leaves []leafInfo
+				leafTypes(pt, r, &leaves)
+				o.Cells = make([]Value, len(leaves))
+				for j, l := range leaves {
+					b, _ := val(out, l.Path)
+					if b == nil {
+						b = bi(0)
+					}
+					o.Cells[j] = ex.constOf(b, machType(l.Typ))
+				}
+				results = append(results, PtrV{Obj: o, Typ: pt})
+			default:
+				if p, ok := ex.specVars[s].(PtrV); ok {
+					results = append(results, p)
+				} else {
+					results = append(results, PtrV{Typ: pt})
+				}
+			}
+		case "slice":
+			bs, _ := hexDecode(out[r+".bytes"])
+			o := ex.newBytes(r, len(bs), len(bs))
+			for j, b := range bs {
+				o.Cells[j] = ex.constOf(bi(int64(b)), u8t)
+			}
+			if len(bs) == 0 {
+				results = append(results, SliceV{Elem: types.Typ[types.Uint8]})
+			} else {
+				results = append(results, SliceV{Obj: o, Len: len(bs), Cap: len(bs), Elem: types.Typ[types.Uint8]})
+			}
+		case "string":
+			results = append(results, OpaqueV{Kind: "string", Data: out[r+".string"]})
+		default:
+			if at, ok := rt.Underlying().(*types.Array); ok {
+				cells := make([]Value, at.Len())
+				for j := range cells {
+					b, _ := val(out, fmt.Sprintf("%s[%d]", r, j))
+					if b == nil {
+						b = bi(0)
+					}
+					cells[j] = ex.constOf(b, machType(at.Elem()))
+				}
+				results = append(results, AggV{Typ: rt, Cells: cells})
+			}
+		}
+	}
+	bindResults(vars, results)
+	ctx := &SpecCtx{ex: ex, vars: vars, old: ex.entry, pkg: fr.Pkg}
+	verdicts = map[string]string{}
+	for _, cl := range append(append([]*Clause{}, fc.Ensures...), fc.Derives...) {
+		func() {
+			defer func() {
+				if r := recover(); r != nil {
+					verdicts[cl.Name] = fmt.Sprint("not evaluable: ", r)
+				}
+			}()
+			t := ctx.term(cl.Expr)
+			switch {
+			case t.IsTrue():
+				verdicts[cl.Name] = "true"
+			case t.IsFalse():
+				verdicts[cl.Name] = "false"
+			default:
+				verdicts[cl.Name] = "residual: " + t.Short()
+			}
+		}()
+	}
+	// frame: unchanged cells outside modifies, spare capacity, abstract slices
+	mod := ex.modifiedSet()
+	frameOK := true
+	for _, o := range ex.st.objs {
+		if !o.Pre {
+			continue
+		}
+		old := ex.entry.cells[o]
+		for i, c := range o.Cells {
+			if mod[o][i] || i >= len(old) {
+				continue
+			}
+			ct, ok1 := c.(*Term)
+			ot, ok2 := old[i].(*Term)
+			if ok1 && ok2 && !Eq(ct, ot).IsTrue() {
+				frameOK = false
+				verdicts["frame:"+o.Name] = "false"
+			}
+		}
+	}
+	for k, s := range out {
+		if (strings.HasPrefix(k, "spare-unchanged(") || strings.HasPrefix(k, "unchanged(")) && s == "false" {
+			frameOK = false
+			verdicts["frame:"+strings.TrimSuffix(k[strings.Index(k, "(")+1:], ")")] = "false"
+		}
+	}
+	_ = frameOK
+	if p, ok := out["panic"]; ok {
+		verdicts["panic"] = p
+	}
+	return
+}
+
+func hexDecode(s string) ([]byte, error) {
+	b := make([]byte, len(s)/2)
+	for i := range b {
+		var x byte
+		fmt.Sscanf(s[2*i:2*i+2], "%02x", &x)
+		b[i] = x
+	}
+	return b, nil
+}
+
+var boundary64 = []string{"0", "1", "2", "18446744073709551615", "9223372036854775808", "18446744069414583343", "18446744069414583342",
+	"13822214165235122497", "13451932020343611451", "18446744073709551614", "4294968273", "4294967296", "255", "256"}
+
+// genVectors: the solver model first (if any), then boundary-biased random vectors.
+func (v *Verifier) genVectors(o *Oblig, keys []string, n int, seed int64) []map[string]string {
+	rng := rand.New(rand.NewSource(seed))
+	var vecs []map[string]string
+	if o != nil && len(o.Res.Model) > 0 {
+		m := map[string]string{}
+		for _, k := range keys {
+			m[k] = "0"
+		}
+		for k, val := range o.Res.Model {
+			m[k] = val
+		}
+		vecs = append(vecs, m)
+	}
+	P, N := primeP, primeN
+	interesting := []*big.Int{bi(0), bi(1), bi(2), new(big.Int).Sub(P, bi(1)), new(big.Int).Sub(N, bi(1)), new(big.Int).Sub(N, bi(2)),
+		pow2(255), pow2(128), pow2(64), new(big.Int).Mod(bigR, P), new(big.Int).Mod(bigR, N), new(big.Int).Sub(pow2(256), bi(1)), N, P,
+		new(big.Int).Mod(new(big.Int).Mul(bigR, bigR), N), modInverse(bigR, N), modInverse(bigR, P)}
+	// group keys into 4-limb numbers
+	groups := map[string][]string{}
+	for _, k := range keys {
+		if i := strings.LastIndex(k, "["); i > 0 && strings.HasSuffix(k, "]") {
+			groups[k[:i]] = append(groups[k[:i]], k)
+		}
+	}
+	for len(vecs) < n {
+		m := map[string]string{}
+		for _, k := range keys {
+			switch {
+			case strings.HasPrefix(k, "sparecap("):
+				m[k] = fmt.Sprint(rng.Intn(4))
+			case strings.HasPrefix(k, "bytes("):
+				ln := []int{0, 1, 5, 16, 32, 49, 254, 255, 256, 257, 300}[rng.Intn(11)]
+				b := make([]byte, ln)
+				rng.Read(b)
+				m[k] = fmt.Sprintf("%x", b)
+			case strings.HasPrefix(k, "string("):
+				b := make([]byte, []int{0, 1, 32, 33, 65, 31}[rng.Intn(6)])
+				rng.Read(b)
+				s := fmt.Sprintf("%x", b)
+				if rng.Intn(6) == 0 {
+					s += "0"
+				}
+				m[k] = s
+			default:
+				if rng.Intn(3) == 0 {
+					m[k] = boundary64[rng.Intn(len(boundary64))]
+				} else if rng.Intn(4) == 0 {
+					m[k] = fmt.Sprint(rng.Intn(4))
+				} else {
+					m[k] = fmt.Sprint(rng.Uint64())
+				}
+			}
+		}
+		for g, ks := range groups {
+			if len(ks) == 4 && rng.Intn(2) == 0 {
+				var val *big.Int
+				if rng.Intn(2) == 0 {
+					val = interesting[rng.Intn(len(interesting))]
+				} else {
+					val = new(big.Int).Rand(rng, N)
+				}
+				for i := 0; i < 4; i++ {
+					limb := new(big.Int).And(new(big.Int).Rsh(val, uint(64*i)), new(big.Int).Sub(pow2(64), bi(1)))
+					m[fmt.Sprintf("%s[%d]", g, i)] = limb.String()
+				}
+			}
+			if len(ks) == 4 && rng.Intn(3) == 0 {
+				// structured limbs: a run of all-ones limbs, boundary values elsewhere (carry-chain corner cases)
+				lo, hi := rng.Intn(4), rng.Intn(4)
+				if lo > hi {
+					lo, hi = hi, lo
+				}
+				for i := 0; i < 4; i++ {
+					k := fmt.Sprintf("%s[%d]", g, i)
+					switch {
+					case i >= lo && i <= hi && !(lo == 0 && hi == 3):
+						m[k] = "18446744073709551615"
+					case rng.Intn(2) == 0:
+						m[k] = boundary64[rng.Intn(len(boundary64))]
+					default:
+						m[k] = fmt.Sprint(rng.Uint64())
+					}
+				}
+			} else if len(ks) == 4 && rng.Intn(3) == 0 {
+				// Montgomery one / small constants as the partner operand
+				val := []*big.Int{new(big.Int).Mod(bigR, P), new(big.Int).Mod(bigR, N), bi(1), bi(2)}[rng.Intn(4)]
+				for i := 0; i < 4; i++ {
+					limb := new(big.Int).And(new(big.Int).Rsh(val, uint(64*i)), new(big.Int).Sub(pow2(64), bi(1)))
+					m[fmt.Sprintf("%s[%d]", g, i)] = limb.String()
+				}
+			}
+			if len(ks) >= 32 && rng.Intn(2) == 0 { // big-endian byte arrays near interesting values
+				val := interesting[rng.Intn(len(interesting))]
+				if rng.Intn(2) == 0 {
+					val = new(big.Int).Add(val, bi(int64(rng.Intn(3)-1)))
+				}
+				if val.Sign() >= 0 {
+					b := val.FillBytes(make([]byte, 33))[1:]
+					off := len(ks) - 32
+					for i := 0; i < 32; i++ {
+						m[fmt.Sprintf("%s[%d]", g, off+i)] = fmt.Sprint(b[i])
+					}
+				}
+			}
+		}
+		vecs = append(vecs, m)
+	}
+	return vecs
+}
+
+// tryReplay: confirm a failed obligation on the real code. The model (if any) is tried first, then a directed search.
+func (v *Verifier) tryReplay(prop string, o *Oblig, rep map[string]interface{}, tier string, seed int) (confirmed bool) {
+	defer func() {
+		if r := recover(); r != nil {
+			rep["replay_error"] = fmt.Sprint(r)
+			confirmed = false
+		}
+	}()
+	fr := v.prog.Lookup(o.Func)
+	fc := v.specs.Funcs[o.Func]
+	if fr == nil || fc == nil {
+		return false
+	}
+	n := 1500
+	if tier == "thorough" {
+		n = 20000
+	}
+	t0 := time.Now()
+	cases := v.enumerateCases(fr, fc)
+	// the failing case first
+	sort.SliceStable(cases, func(i, j int) bool { return cases[i].label == o.Pattern && cases[j].label != o.Pattern })
+	tried := 0
+	for ci, cs := range cases {
+		if ci > 5 || time.Since(t0) > 90*time.Second {
+			break
+		}
+		h := v.buildHarness(fr, fc, cs)
+		if !h.ok {
+			rep["replay_unsupported"] = h.why
+			continue
+		}
+		// input keys
+		ex := v.newExec(fr, fc)
+		ex.resetPath()
+		func() {
+			defer func() { recover() }()
+			ex.setupParams(cs)
+		}()
+		var keys []string
+		for k := range ex.inputs {
+			keys = append(keys, k)
+		}
+		for _, p := range h.params {
+			if p.kind == "absslice" {
+				keys = append(keys, "bytes("+p.name+")")
+			}
+			if p.kind == "string" {
+				keys = append(keys, "string("+p.name+")")
+			}
+		}
+		sort.Strings(keys)
+		var model *Oblig
+		if cs.label == o.Pattern {
+			model = o
+		}
+		vecs := v.genVectors(model, keys, n, int64(seed)+int64(ci))
+		outs, cmdline, err := v.runHarness(h, vecs)
+		if err != nil {
+			rep["replay_error"] = err.Error()
+			continue
+		}
+		for i, out := range outs {
+			pre, verdicts, err := v.evalOn(fr, fc, cs, vecs[i], out)
+			if err != nil || !pre {
+				continue
+			}
+			tried++
+			var bad []string
+			for name, vd := range verdicts {
+				if vd == "false" || name == "panic" && fc.Panics == nil {
+					bad = append(bad, name)
+				}
+			}
+			if len(bad) > 0 {
+				sort.Strings(bad)
+				rep["found_by"] = "directed-search"
+				if i == 0 && model != nil && len(o.Res.Model) > 0 {
+					rep["found_by"] = "model"
+				}
+				rep["case"] = cs.label
+				rep["inputs"] = vecs[i]
+				rep["observed"] = out
+				rep["violated_clauses"] = bad
+				rep["verdicts"] = verdicts
+				rep["cmd"] = cmdline
+				rep["harness"] = filepath.Join(verifRoot, "build", "replay", sanitize(fr.QName()), "zz_verif_replay_test.go")
+				rep["note"] = "the harness is compiled into the package with go test -overlay; re-running cmd with the single vector reproduces 'observed'"
+				// keep a one-vector file for the replay command
+				one, _ := json.Marshal([]map[string]string{vecs[i]})
+				os.WriteFile(filepath.Join(verifRoot, "build", "replay", sanitize(fr.QName()), "vectors.json"), one, 0o644)
+				return true
+			}
+		}
+	}
+	rep["directed_search_runs"] = tried
 	return false
 }
